@@ -134,11 +134,12 @@ struct StateProp : Prop {
 					if (dense) { J sl = J::obj(); sl.set("op", "sleep"); sl.set("us", 5000); ops.push(sl); }
 					for (int k = 0, no = dense ? (int) r.range(30, 90) : (int) r.range(6, 24); k < no; k++) {
 						J g = J::obj(); J s = J::arr();
-						uint64_t y = dense ? r.below(82) : r.below(100);
+						uint64_t y = dense ? r.below(88) : r.below(100);
 						if (dense && k % 4 == 3) y = 99;      // a batch of three calls, then the next grid instant
 						if (y < 55) { g.set("op", "get"); g.set("fn", "train_position"); s.push(tr.id); }
 						else if (y < 70) { g.set("op", "get"); g.set("fn", "train_on_track"); s.push(tr.id); }
-						else if (y < 88) { g.set("op", "get"); g.set("fn", "segment_state"); s.push(sg.second->id); }
+						else if (y < 82) { g.set("op", "get"); g.set("fn", "segment_state"); s.push(sg.second->id); }
+						else if (y < 88) { g.set("op", "get"); g.set("fn", "state"); }
 						else { g.set("op", "sleep"); g.set("us", 5000); }
 						g.set("s", s); g.set("i", J::arr()); ops.push(g);
 					}
@@ -152,7 +153,7 @@ struct StateProp : Prop {
 					// occupancy subset
 					// (one event in eight is another report about segments or trains - confidence, current, speed, dynamic state: presence must not move)
 					bool other = r.chance(125);
-					do { e = api::uplink_event(r, wcur, 0); } while (other ? (e.geti("type") != MSG_BM_CONFIDENCE && e.geti("type") != MSG_BM_CURRENT && e.geti("type") != MSG_BM_SPEED && e.geti("type") != MSG_BM_DYN_STATE)
+					do { e = api::uplink_event(r, wcur, 0); } while (other ? (e.geti("type") != MSG_BM_CONFIDENCE && e.geti("type") != MSG_BM_CURRENT && e.geti("type") != MSG_BM_SPEED && e.geti("type") != MSG_BM_DYN_STATE && e.geti("type") != MSG_CS_DRIVE_MANUAL)
 					                                                      : (e.geti("type") != MSG_BM_OCC && e.geti("type") != MSG_BM_FREE && e.geti("type") != MSG_BM_MULTIPLE && e.geti("type") != MSG_BM_ADDRESS));
 				} else e = api::uplink_event(r, wcur, 0);
 				if (!is_c08) {
@@ -205,7 +206,7 @@ struct StateProp : Prop {
 	void attach(Engine &e) override {
 		model = sm::Model(); model.init(cfg::from_json(e.plan["world"]));
 		wire_pos = frame_pos = ops_pos = 0; checks = corrupted_seen = span2 = shared2 = snapshot_checks = snapshot_skipped = 0; seg_log.clear(); receiver = -1;
-		vers.clear(); pending_reads.clear(); reader_results_judged = reader_results_overlapping_update = segment_results_judged = 0; before_wire = nullptr; started = reset_pending = false; resets_folded = 0; reset_wire_from = 0;
+		vers.clear(); pending_reads.clear(); reader_results_judged = reader_results_overlapping_update = segment_results_judged = snapshot_order_judged = 0; before_wire = nullptr; started = reset_pending = false; resets_folded = 0; reset_wire_from = 0;
 		g_seg_log = &seg_log; sim::hooks().on_lock = seg_lock_hook;
 	}
 	void before_stop(Engine &, int) override { g_seg_log = nullptr; sim::hooks().on_lock = nullptr; }
@@ -260,7 +261,7 @@ struct StateProp : Prop {
 	std::vector<Ver> vers;
 	struct PendingRead { std::string fn, train; J result; uint64_t inv, ret; };
 	std::vector<PendingRead> pending_reads;
-	uint64_t reader_results_judged = 0, reader_results_overlapping_update = 0, topo_events = 0, segment_results_judged = 0;
+	uint64_t reader_results_judged = 0, reader_results_overlapping_update = 0, topo_events = 0, segment_results_judged = 0, snapshot_order_judged = 0;
 	std::map<std::string, std::vector<std::string>> presence_now() {
 		std::map<std::string, std::vector<std::string>> p;
 		for (auto &t : model.w.trains) { std::vector<std::string> segs; for (auto &b : model.w.boards) for (auto &g : b.segs) for (auto &a : model.sg[g.id].addrs) if (a[0] == t.addrl && a[1] == t.addrh) segs.push_back(g.id); std::sort(segs.begin(), segs.end()); segs.erase(std::unique(segs.begin(), segs.end()), segs.end()); p[t.id] = segs; }
@@ -268,6 +269,27 @@ struct StateProp : Prop {
 	}
 	void judge_readers(Engine &e) {
 		for (auto &pr : pending_reads) {
+			if (pr.fn == "state") {
+				// A snapshot copies the segment table, then the train table, each under its own lock: what it says about trains (derived from the segment
+				// lists) may be newer than its segment lists, never older. With the versions that can have been current during the call: some version
+				// that matches the train part must be at least as new as some version that matches the segment part.
+				std::vector<size_t> cand, S, T;
+				for (size_t i = 0; i < vers.size(); i++) if (vers[i].start <= pr.ret && vers[i].end >= pr.inv) cand.push_back(i);
+				if (cand.size() < 2) continue;
+				for (size_t i : cand) {
+					bool seg_ok = true, tr_ok = true;
+					for (auto &kv : vers[i].seg) if (!pr.result["segments"].has(kv.first) || pr.result["segments"][kv.first].dump() != kv.second) { seg_ok = false; break; }
+					for (auto &kv : vers[i].pos) if (pr.result["trains"].has(kv.first) && pr.result["trains"][kv.first].getb("on_track") != !kv.second.empty()) { tr_ok = false; break; }
+					if (seg_ok) S.push_back(i);
+					if (tr_ok) T.push_back(i);
+				}
+				if (S.empty() || T.empty()) continue;      // (not judged here: another update kind overlapped)
+				snapshot_order_judged++;
+				if (T.back() < S.front())
+					e.violate("SNAPSHOT_TRAINS_OLDER_THAN_SEGMENTS", "bidib_get_state", "a snapshot taken during occupancy updates (steps " + std::to_string(pr.inv) + ".." + std::to_string(pr.ret) + ") carries the segment lists of update #" + std::to_string(S.front()) +
+					          " or later but train presence as of update #" + std::to_string(T.back()) + " or earlier: what is derived from the segment lists lags behind them");
+				continue;
+			}
 			if (pr.fn == "segment_state") {
 				// a concurrent copy of one segment's state must be the state the segment had at some moment of the call
 				if (!pr.result.getb("known")) continue;
@@ -320,6 +342,10 @@ struct StateProp : Prop {
 	void after_op(Engine &e, OpRec &o) override {
 		const std::string &k = o.op->gets("op");
 		if (k == "reset") { ingest(e); initial_dcc(e, reset_wire_from); if (is_c08 && !vers.empty()) { vers.back().end = sim::step(); Ver v; v.start = o.inv_step; v.pos = presence_now(); v.seg = segs_now(); vers.push_back(v); } return; }
+		if (is_c08 && k == "get" && o.op->gets("fn") == "state") {
+			if (vers.empty()) { ingest(e); Ver v; v.pos = presence_now(); v.seg = segs_now(); vers.push_back(v); }
+			pending_reads.push_back(PendingRead{"state", "", o.result, o.inv_step, o.ret_step});
+		}
 		if (is_c08 && k == "get" && (o.op->gets("fn") == "train_position" || o.op->gets("fn") == "train_on_track" || o.op->gets("fn") == "segment_state") && (*o.op)["s"].size() > 0 && (*o.op)["s"][0].is_str()) {
 			if (vers.empty()) { ingest(e); Ver v; v.pos = presence_now(); v.seg = segs_now(); vers.push_back(v); }
 			pending_reads.push_back(PendingRead{o.op->gets("fn"), (*o.op)["s"][0].str(), o.result, o.inv_step, o.ret_step});
@@ -413,7 +439,7 @@ struct StateProp : Prop {
 		f.set("shape", (long long) (pc::shape_hash(e.plan) >> 1));
 		J p = J::obj(); p.set("state_comparisons", (long long) checks); p.set("unknown_target_messages", (long long) model.unknown_targets); p.set("list_valued_messages", (long long) model.list_valued);
 		if (!is_c08) p.set("corrupted_copies_delivered", (long long) corrupted_seen); p.set("application_resets_folded", (long long) resets_folded); p.set("topology_notices", (long long) topo_events);
-		if (is_c08) { p.set("train_spanning_two_segments", (long long) span2); p.set("segment_with_two_addresses", (long long) shared2); p.set("consistent_snapshots_checked", (long long) snapshot_checks); p.set("concurrent_presence_results_judged", (long long) reader_results_judged); p.set("concurrent_presence_results_overlapping_an_update", (long long) reader_results_overlapping_update); p.set("snapshots_overlapping_an_update", (long long) snapshot_skipped); p.set("concurrent_segment_state_results_judged", (long long) segment_results_judged); }
+		if (is_c08) { p.set("train_spanning_two_segments", (long long) span2); p.set("segment_with_two_addresses", (long long) shared2); p.set("consistent_snapshots_checked", (long long) snapshot_checks); p.set("concurrent_presence_results_judged", (long long) reader_results_judged); p.set("concurrent_presence_results_overlapping_an_update", (long long) reader_results_overlapping_update); p.set("snapshots_overlapping_an_update", (long long) snapshot_skipped); p.set("concurrent_segment_state_results_judged", (long long) segment_results_judged); p.set("snapshots_overlapping_updates_judged_for_order", (long long) snapshot_order_judged); }
 		f.set("probes", p);
 	}
 };
